@@ -212,6 +212,14 @@ func (g *Gateway) handleLegacyProtocol(w http.ResponseWriter, r *http.Request, t
 			t.transportIn = in
 			c.Set(t.RDGId, t, cache.DefaultExpiration)
 
+			// the RDG_OUT_DATA connection was hijacked by an earlier request and is
+			// owned by the tunnel: it ends with the tunnel
+			defer func() {
+				if t.transportOut != nil {
+					t.transportOut.Close()
+				}
+			}()
+
 			log.Printf("Opening RDGIN for client %s", id.GetAttribute(identity.AttrClientIp))
 			in.SendAccept(false)
 
